@@ -132,9 +132,175 @@ def _file_clause(out, outputfile, res, idx, inr, kinds=("np.save", "np.savetxt")
     return sv.implies(inr, sv.and_(*eqs))
 
 
-def _replay_boo(what, case, clause, model, seed):
-    return {"ran": False, "failed": False, "error": "replay harness not written yet"}
+# ---- replay: the real class on seeded configurations against a straightforward numpy implementation of eq. (1)-(9) ----
 
+def _Y_table(l, theta, phi):
+    """independent Y_lm table (m = -l..l): C08's generated closed forms for l <= 10, scipy beyond"""
+    import numpy as np
+    if l <= 10:
+        from contracts.C08 import spec_table
+        from pyvc import conc
+        return np.array([complex(a, b) for a, b in spec_table(l, theta, phi, M=conc)])
+    import scipy.special as sp
+    if hasattr(sp, "sph_harm_y"):
+        return np.array([sp.sph_harm_y(l, m, theta, phi) for m in range(-l, l + 1)])
+    return np.array([sp.sph_harm(m, l, phi % (2 * np.pi), theta) for m in range(-l, l + 1)])
+
+
+def _make_system(rng, trial, tmpdir, weighted, l):
+    """seeded trajectory + neighbour file (+ weight file) in the format of the neighbors module"""
+    import importlib
+    import os
+    import numpy as np
+    RUm = importlib.import_module("PyMatterSim.reader.reader_utils")
+    N = int(rng.integers(3, 9))
+    T = int(rng.integers(1, 4))
+    L = rng.uniform(3.0, 6.0, size=3)
+    H = np.diag(L)
+    if trial % 2 == 1:
+        H[1, 0] = rng.uniform(-0.4, 0.4) * L[0]
+        H[2, 0] = rng.uniform(-0.3, 0.3) * L[0]
+        H[2, 1] = rng.uniform(-0.3, 0.3) * L[1]
+    ppp = np.array([int(rng.integers(0, 2)) for _ in range(3)]) if trial % 3 == 2 else np.ones(3, dtype=int)
+    Nmax = int(rng.choice([30, 30, 4]))
+    snaps, nbs, wts = [], [], []
+    for s in range(T):
+        pos = rng.uniform(0, 1, size=(N, 3)) @ H
+        snaps.append(RUm.SingleSnapshot(timestep=10 * s, nparticle=N, particle_type=np.ones(N, dtype=int), positions=pos, boxlength=L.copy(),
+                                        boxbounds=np.column_stack([np.zeros(3), L]), realbounds=np.column_stack([np.zeros(3), L]), hmatrix=H.copy()))
+        fn, fw = [], []
+        for i in range(N):
+            cn = int(rng.integers(1, min(N - 1, 5) + 1))
+            others = [j for j in range(N) if j != i]
+            fn.append([int(x) for x in rng.choice(others, size=cn, replace=False)])
+            fw.append([float(x) for x in (rng.uniform(0.2, 3.0, size=cn) if trial % 4 != 3 else np.full(cn, 1.7))])
+        nbs.append(fn)
+        wts.append(fw)
+    nfile, wfile = os.path.join(tmpdir, "n.neighbor.dat"), os.path.join(tmpdir, "n.weights.dat")
+    with open(nfile, "w") as f:
+        for s in range(T):
+            f.write("id     cn     neighborlist\n")
+            order = list(range(N))
+            for i in order:
+                f.write(f"{i+1} {len(nbs[s][i])} " + " ".join(str(j + 1) for j in nbs[s][i]) + "\n")
+    with open(wfile, "w") as f:
+        for s in range(T):
+            f.write("id     cn     weights\n")
+            for i in range(N):
+                f.write(f"{i+1} {len(wts[s][i])} " + " ".join(repr(w) for w in wts[s][i]) + "\n")
+    S = RUm.Snapshots(nsnapshots=T, snapshots=snaps)
+    return dict(N=N, T=T, H=H, L=L, ppp=ppp, Nmax=Nmax, snaps=snaps, S=S, nbs=nbs, wts=wts, nfile=nfile, wfile=wfile if weighted else None, l=l)
+
+
+def _ref_fields(sy):
+    """q and Q by eq. (1)-(3), plain loops"""
+    import numpy as np
+    N, T, H, ppp, l, Nmax = sy["N"], sy["T"], sy["H"], sy["ppp"], sy["l"], sy["Nmax"]
+    Hinv = np.linalg.inv(H)
+    q = np.zeros((T, N, 2 * l + 1), dtype=complex)
+    Q = np.zeros_like(q)
+    for s in range(T):
+        pos = sy["snaps"][s].positions
+        for i in range(N):
+            nb_ = sy["nbs"][s][i][:Nmax]
+            w = np.array(sy["wts"][s][i][:Nmax]) if sy["wfile"] else np.ones(len(nb_))
+            w = w / w.sum()
+            for j, wj in zip(nb_, w):
+                m = (pos[j] - pos[i]) @ Hinv
+                m = m - np.rint(m) * ppp
+                b = m @ H
+                r = np.sqrt((b * b).sum())
+                q[s, i] += wj * _Y_table(l, np.arccos(b[2] / r), np.arctan2(b[1], b[0]))
+        for i in range(N):
+            nb_ = sy["nbs"][s][i][:Nmax]
+            Q[s, i] = (q[s, i] + sum(q[s, j] for j in nb_)) / (1 + len(nb_))
+    return q, Q
+
+
+def _close(a, b, rel=1e-9, abs_=1e-11):
+    import numpy as np
+    a, b = np.asarray(a), np.asarray(b)
+    return a.shape == b.shape and bool(np.all(np.abs(a - b) <= abs_ + rel * np.abs(b)))
+
+
+def _replay_boo(what, case, clause, model, seed):
+    import importlib
+    import shutil
+    import tempfile
+    import numpy as np
+    try:
+        B = importlib.import_module(MOD)
+    except Exception as e:
+        return {"ran": True, "failed": True, "detail": f"module cannot be imported: {type(e).__name__}: {e}"}
+    rng = np.random.default_rng(seed + 101)
+    tmpdir = tempfile.mkdtemp(prefix="pyvc-c09-")
+    tried = 0
+    try:
+        for trial in range(10):
+            weighted = ("weighted" in case and "unweighted" not in case) if what == "qlm_Qlm" else (trial % 2 == 0)
+            l = int(rng.choice([2, 4, 6, 3, 11])) if what != "w_W_cap" else int(rng.choice([2, 4]))
+            if case.startswith("l="):
+                l = int(case.split("/")[0][2:])
+            sy = _make_system(rng, trial, tmpdir, weighted, l)
+            info = {k: sy[k] for k in ("N", "T", "l", "Nmax")}
+            info.update(hmatrix=sy["H"].tolist(), ppp=sy["ppp"].tolist(), weighted=bool(weighted), neighbours=sy["nbs"],
+                        weights=sy["wts"] if weighted else None, positions=[sn.positions.tolist() for sn in sy["snaps"]])
+            try:
+                obj = B.boo_3d(sy["S"], l=l, neighborfile=sy["nfile"], weightsfile=sy["wfile"], ppp=sy["ppp"], Nmax=sy["Nmax"])
+            except Exception as e:
+                return {"ran": True, "failed": True, "inputs": info, "detail": f"boo_3d(...) raises {type(e).__name__}: {e}", "searched": tried}
+            q, Q = _ref_fields(sy)
+            tried += 1
+            bad = _check_method(B, obj, what, case, sy, q, Q, tmpdir, rng)
+            if bad:
+                return {"ran": True, "failed": True, "inputs": info, "detail": bad, "searched": tried, "from_model": False}
+        return {"ran": True, "failed": False, "searched": tried}
+    finally:
+        shutil.rmtree(tmpdir, ignore_errors=True)
+
+
+def _check_method(B, obj, what, case, sy, q, Q, tmpdir, rng):
+    """-> None or a description of the first violated clause"""
+    import os
+    import numpy as np
+    l, T, N, Nmax = sy["l"], sy["T"], sy["N"], sy["Nmax"]
+    if what == "qlm_Qlm":
+        got_q, got_Q = obj.qlm_Qlm()
+        if np.shape(got_q) != (T, N, 2 * l + 1) or np.shape(got_Q) != (T, N, 2 * l + 1):
+            return f"shapes {np.shape(got_q)}, {np.shape(got_Q)}; expected {(T, N, 2*l+1)}"
+        if not _close(got_q, q):
+            k = np.unravel_index(np.argmax(np.abs(got_q - q)), q.shape)
+            return f"q_lm{k}: got {got_q[k]!r}, eq. (1)/(2) gives {q[k]!r}"
+        if not _close(got_Q, Q):
+            k = np.unravel_index(np.argmax(np.abs(got_Q - Q)), Q.shape)
+            return f"Q_lm{k}: got {got_Q[k]!r}, eq. (3) gives {Q[k]!r}"
+        if not (_close(obj.smallqlm, q) and _close(obj.largeQlm, Q)):
+            return "attributes smallqlm/largeQlm differ from the definitions"
+        return None
+    cg = "coarse" in case
+    if not (_close(obj.smallqlm, q) and _close(obj.largeQlm, Q)):
+        return None     # a defect of qlm_Qlm is reported by its own unit; the other methods are judged on correct fields only
+    f = Q if cg else q
+    n2 = (np.abs(f) ** 2).sum(axis=2)
+    if what == "ql_Ql":
+        ext = case.split("/")[1]
+        of = None if ext == "nofile" else os.path.join(tmpdir, "ql." + ext)
+        got = obj.ql_Ql(coarse_graining=cg, outputfile=of)
+        want = np.sqrt(4 * np.pi / (2 * l + 1) * n2)
+        if not _close(got, want):
+            return f"q_l differs from sqrt(4 pi/(2l+1) sum_m |q_lm|^2): max error {np.max(np.abs(np.asarray(got) - want))}"
+        if np.any(np.asarray(got) < 0) or np.any(np.asarray(got) > 1 + 1e-9):
+            return f"q_l outside [0, 1]: {np.min(got)} .. {np.max(got)}"
+        if of is not None:
+            npy = of if of.endswith(".npy") else of + ".npy"
+            if ext == "npy":
+                if not os.path.exists(npy) or not _close(np.load(npy), got):
+                    return "saved npy file differs from the returned array"
+            else:
+                if not os.path.exists(of) or not _close(np.loadtxt(of).reshape(np.shape(got)), got, rel=1e-5, abs_=1e-6):
+                    return "saved text file differs from the returned array"
+        return None
+    return "no replay for " + what
 
 
 # ---- the neighbour / weight files: callee contract of read_neighbors (verified under C05) ----------------------------
